@@ -187,8 +187,14 @@ P = {
        "Mul/Div/Mod = truncated exact result, Trunc/Ceil/Round (halves away from zero, both signs), Abs/Neg/Min/Max/Inc/Dec/"
        "comparisons, f64/f128 agreement, integer From/As, Fraction, all under the property's representability hypotheses, "
        "for every configuration of the regenerated multiplier table (multiplier_table: each = 10^places); restated over Q. "
-       "The model is run against all 16 configurations of both types on ~600k operations per quick run.",
-  note="float From/As error bound: implementation-side oracle against big.Rat only (no theorem; float32 kinds read with "
+       "The model is run against all 16 configurations of both types on ~600k operations per quick run. SECOND TIE "
+       "(translator): on every run gossa/ssagen regenerates Lean definitions of the 48 integer functions of xmath/fixed and "
+       "xmath/fixed/f64 (D1..D16 Places/Multiplier, f64.Int Abs Add Ceil Dec Div Inc Max Min Mod Mul Round Sub Trunc, ...) from "
+       "the working tree (lean/Generated/SSA_F64.lean; the type parameter becomes a dictionary (Multiplier, Places)) and "
+       "Props/C03Gen.lean proves each equal to the hand-written model over BitVec 64, wrap-around included (54 theorems).",
+  note="the SSA translator (gossa) is trusted to render the integer fragment faithfully; From/As/CheckedAs, text methods and "
+       "Fraction are outside the translated fragment (correspondence only); a function that a change moves outside the "
+       "fragment is recorded as reduced coverage, not as a broken proof. float From/As error bound: implementation-side oracle against big.Rat only (no theorem; float32 kinds read with "
        "relative bound 2^-23); Uint128.Div inside f128.Div taken by its contract (proved under C01); wrap-around behaviour of "
        "non-representable results is compared model-vs-code only.",
   ref="DESIGN.md section 5 C03, section 0"),
